@@ -506,11 +506,54 @@ func runC19(seed int64, tier string, out string) {
 	}
 	w.flush()
 
+	// --- fixed-length loader: model vs implementation
+	nFixed := 500
+	if tier == "thorough" {
+		nFixed = 8000
+	}
+	fw := &shardWriter{dir: out, prop: "C19", max: 1200, meta: meta, k: 1,
+		header: "Require Import Csvq.Model.Base Csvq.Model.Value Csvq.Model.Conv Csvq.Model.Fixed Csvq.Harness.H19Fixed.\nOpen Scope list_scope.\n",
+		footer: func(ls []string) string {
+			return "Definition M := Eval vm_compute in (check_fixed fcases).\nPrint M.\n"
+		}}
+	fcs := genFixedCases(r, nFixed, 700000)
+	fps := make([]*Probe, len(fcs))
+	for i, c := range fcs {
+		fps[i] = c.Probe
+	}
+	fres := runProbes(fps, workers)
+	for i, c := range fcs {
+		pr := fres[i]
+		meta.Evaluations++
+		distinct[sha1.Sum([]byte(c.Probe.signature()))] = true
+		if pr.R.Code != 0 && strings.Contains(pr.R.Stderr, "is ambiguous") {
+			// two header names coincide: SELECT * refuses the table before printing anything -- outside the fragment
+			meta.Distribution["fixed:skipped-duplicate-header"]++
+			continue
+		}
+		term, shown := coqFixedCase(c, pr.R)
+		fw.add("fcases:fcase", term)
+		meta.Cases[fmt.Sprint(c.ID)] = shown
+		if pr.R.Code == 0 {
+			meta.Distribution["fixed:table"]++
+		} else {
+			meta.Distribution["fixed:error"]++
+		}
+		if c.Single {
+			meta.Distribution["fixed:single-line"]++
+		}
+		if pr.Key != "" && !strings.HasSuffix(pr.Key, ":non-rectangular") { // shape is judged in Coq (kind 8)
+			meta.Direct = append(meta.Direct, DirectViolation{Key: pr.Key, What: "[fixed] " + pr.What, Case: shown})
+		}
+	}
+	fw.flush()
+
 	meta.Distinct = len(distinct)
 	meta.Rule = "one evaluation = one csvq process (fresh scratch directory, 10 s wall clock, 1 GB address space) or one row of the extracted error table / one nil-error site / one exit-code trigger. " +
 		"Inputs: corpus/C19 first; file-system conditions; every command-line option x boundary values; every clause / statement kind x boundary literals (0, 1, -1, int64 min/max, 2^31, 2^63, 1e308, NULL, '', strings, 10 000-char string, booleans, datetimes); " +
 		"every name of the Functions / AggregateFunctions / AnalyticFunctions tables (extracted from the source at run time) x 0..6 arguments from the boundary set (all singletons, a cross product of pairs, random triples), aggregate / analytic / window-frame forms; " +
 		"loader fuzzing: mutated / structured / random / cross-format byte strings as CSV, TSV, FIXED, LTSV, JSON, JSONL through STDIN, files and table objects x delimiter, delimiter positions, encoding (really encoded or merely declared), no-header, allow-uneven-fields, without-null, json-query, incl. invalid option values. " +
+		"Fixed-length correspondence: random valid-UTF-8 texts (ASCII, multi-byte, Unicode spaces, LF/CRLF/CR, empty lines, trailing CR) x strictly ascending position lists x single-line / no-header / without-null, SELECT * FROM FIXED(...) of the binary vs Model.Fixed.fixed_load. " +
 		"Pass: exit 0, or a documented status with a non-empty message; no 'Fatal Error' / panic / goroutine dump / Go fatal error, no timeout, no death by signal; SELECT * output (CSV --enclose-all or JSON) rectangular. " +
 		"distinct = distinct (arguments, stdin, files, pre-condition) inputs by SHA-1."
 	meta.Notes = append(meta.Notes, fmt.Sprintf("harness wall %.1fs, %d processes, %d workers", time.Since(t0).Seconds(), len(probes), workers))
